@@ -108,8 +108,8 @@ def action (r : Run) (toks : List String) : Option Run :=
   | ["kill", a] => some (kill r (addrOf a))
   | ["revive", a] => some { r with s := step r.s (.setUp (addrOf a) true) }
   | ["idle", "short"] => some (idleFor r 10)
-  | ["idle", "medium"] => some (idleFor r 270)
-  | ["idle", "long"] => some (idleFor r 1100)
+  | ["idle", "medium"] => some (idleFor r 810)
+  | ["idle", "long"] => some (idleFor r 3300)
   | ["closeidle"] => some { r with s := step r.s .closeIdle }
   | ["close"] =>
     -- Transport.Close also fails the calls outstanding on the connections it closes: their
@@ -129,7 +129,7 @@ def parseCfg (toks : List String) : Option Run :=
   match toks with
   | ["pool", mc, mi] =>
     match (mc.drop 9).toString.toInt?, (mi.drop 8).toString.toInt? with
-    | some mc, some mi => some { s := init mc mi 120 480 }
+    | some mc, some mi => some { s := init mc mi 360 1440 }
     | _, _ => none
   | _ => none
 
